@@ -25,7 +25,7 @@ fn err_class(e: &str) -> String {
         ("for that key", "keyed-get-differs-from-iter"),
         ("although there is no such column", "select-finds-absent-column"),
         ("but the sample row has", "select-or-series-differs-from-rows"),
-        ("but iter yields", "accessor-differs-from-iter"),
+        ("iter yields", "accessor-differs-from-iter-or-count"),
         ("returns the series named", "select-returns-another-series"),
     ] {
         if e.contains(pat) {
@@ -429,6 +429,15 @@ fn literal_lines() -> Vec<(String, (u32, u32))> {
         out.push(("sq0\t5\t.\tA\t<DEL>\t.\t.\tEND=50;SVLEN=.\tGT:YS1:YSU:YC1\t0/1:a%3Ab:x%2Cy,.:%3A\t.\n".into(), ff));
         out.push(("sq0\t5\t.\tA\tC\t.\t.\t.\tGT:YI1:YIU\t0/1\t0/1:.:1,2\n".into(), ff));
         out.push(("sq1\t0\t.\tN\t.\t.\t.\t.\tYI1\t.\t3\n".into(), ff));
+        // trailing FORMAT fields dropped: every prefix length per sample, mixed across samples
+        let keys = ["GT", "YI1", "LEN", "YSU"];
+        let vals = [["0/1", "5", "50", "a,b"], ["1|1", "7", "9", "c"]];
+        for n0 in 1..=4usize {
+            for n1 in 1..=4usize {
+                out.push((format!("sq0\t5\t.\tA\t<*>\t.\t.\t.\t{}\t{}\t{}\n", keys.join(":"), vals[0][..n0].join(":"), vals[1][..n1].join(":")), ff));
+                out.push((format!("sq0\t5\t.\tACGT\t.\t.\t.\t.\t{}\t{}\t{}\n", keys[1..].join(":"), vals[0][1..].iter().take(n0.min(3)).cloned().collect::<Vec<_>>().join(":"), vals[1][1..].iter().take(n1.min(3)).cloned().collect::<Vec<_>>().join(":")), ff));
+            }
+        }
     }
     out
 }
@@ -767,6 +776,93 @@ fn main() {
             },
         );
         ctx.add_distinct(op_cases.len() as u64, op_cases.len() as u64);
+        // (9) several "other" header records under one key with different ID tags / forms
+        ctx.rule(
+            "other header records: hand-written headers with 2-3 records under one key that differ in ID tag or form \
+             (PEDIGREE 4.2 forms, META, SAMPLE, user keys, unstructured), every order x fileformat {4.2, 4.3}: \
+             parse(write(parse(t))) == parse(t), second write byte-identical, every ID and field survives",
+        );
+        let other_lines: Vec<Vec<&str>> = vec![
+            vec!["##PEDIGREE=<Child=cid,Mother=mid,Father=fid>", "##PEDIGREE=<Derived=did,Original=\"oid\">", "##PEDIGREE=<Name_0=G0,Name_1=G1>"],
+            vec!["##PEDIGREE=<ID=c1,Original=o1>", "##PEDIGREE=<ID=c2,Father=f,Mother=m>"],
+            vec!["##SAMPLE=<ID=S1,Assay=WGS>", "##SAMPLE=<ID=S2,Description=\"x, y\">", "##SAMPLE=<ID=S3>"],
+            vec!["##foo=<Name=n1,Value=v1>", "##foo=<Key=k2,Other=o2>", "##foo=<ID=i3>"],
+            vec!["##bar=<ID=b1,X=1>", "##bar=<ID=b2,Y=\"2\">", "##baz=<Tag=t1>"],
+            vec!["##META=<ID=Assay,Type=String,Number=.,Values=[WGS, WES]>", "##META=<ID=Tissue,Type=String,Number=.,Values=[Blood, Skin]>"],
+            vec!["##source=one", "##source=two", "##reference=file:///r.fa"],
+        ];
+        let mut other_cases: Vec<(u32, Vec<&str>)> = Vec::new();
+        for minor in [2u32, 3] {
+            for set in &other_lines {
+                // every ordered selection of 2 and of all lines
+                for i in 0..set.len() {
+                    for j in 0..set.len() {
+                        if i != j {
+                            other_cases.push((minor, vec![set[i], set[j]]));
+                        }
+                    }
+                }
+                let mut all = set.clone();
+                for _ in 0..set.len() {
+                    all.rotate_left(1);
+                    other_cases.push((minor, all.clone()));
+                    let mut r = all.clone();
+                    r.reverse();
+                    other_cases.push((minor, r));
+                }
+            }
+        }
+        let other_text = |c: &(u32, Vec<&str>)| format!("##fileformat=VCFv4.{}\n{}\n#CHROM\tPOS\tID\tREF\tALT\tQUAL\tFILTER\tINFO\n", c.0, c.1.join("\n"));
+        let not_parsed = std::sync::atomic::AtomicU64::new(0);
+        ctx.sweep(
+            "header_other_records",
+            other_cases.len() as u64,
+            |i| format!("header text {:?}", other_text(&other_cases[i as usize])),
+            |i| {
+                let text = other_text(&other_cases[i as usize]);
+                // a text this parser does not accept is outside the statement ("valid header")
+                let Ok(h1) = io::vcf_read_header(text.as_bytes()) else {
+                    not_parsed.fetch_add(1, std::sync::atomic::Ordering::Relaxed);
+                    return Ok(());
+                };
+                let w1 = io::vcf_write_header(&h1).map_err(|f| fail_violation("write-header", &f, String::new(), "Ok"))?;
+                let h2 = io::vcf_read_header(&w1).map_err(|f| {
+                    let mut v = fail_violation("read-header", &f, String::new(), "the writer's own output parses");
+                    v.fingerprint = format!("family=other-records {}", v.fingerprint);
+                    v.observed = format!("{} ; written: {:?}", v.observed, String::from_utf8_lossy(&w1));
+                    v
+                })?;
+                if h2 != h1 {
+                    let (a, b) = (Hdr::from_header(&h1), Hdr::from_header(&h2));
+                    return Err(Violation::new(
+                        "family=other-records stage=read-header symptom=value-differs section=other",
+                        String::new(),
+                        format!("parse(write(h)) == h, h.others = {:?}", a.others),
+                        format!("{:?} ; written: {:?}", b.others, String::from_utf8_lossy(&w1)),
+                    ));
+                }
+                // every line of the source is still there (IDs and fields; quoting may differ)
+                let squash = |s: &str| s.replace('"', "");
+                let written = squash(&String::from_utf8_lossy(&w1));
+                for l in &other_cases[i as usize].1 {
+                    if !written.contains(&squash(l)) {
+                        return Err(Violation::new(
+                            "family=other-records stage=write-header symptom=source-line-changed",
+                            String::new(),
+                            format!("the line {l} (modulo quoting)"),
+                            format!("written: {:?}", String::from_utf8_lossy(&w1)),
+                        ));
+                    }
+                }
+                match io::vcf_write_header(&h2) {
+                    Ok(w2) if w2 == w1 => Ok(()),
+                    _ => Err(Violation::new("family=other-records stage=fixed-point-header symptom=text-differs", String::new(), "same bytes", "different")),
+                }
+            },
+        );
+        ctx.add_distinct(other_cases.len() as u64, other_cases.len() as u64);
+        ctx.extra("header_other_records_not_accepted_by_parser", vmc::json!(not_parsed.load(std::sync::atomic::Ordering::Relaxed)));
+
         // (8) keyed lookups: keys that are substrings / prefixes / suffixes of earlier keys and values
         ctx.rule(
             "keyed lookups: gvcf::keyed documents (every ordered pair and triple of 12 INFO keys - CIEND/END/ENDX/EN, MAF/AF, \
